@@ -705,7 +705,8 @@ PendLegit(p) ==
       x == Cin(k.id) IN
   \/ Stuck
   \/ /\ p.op = "unary"
-     /\ ~CtxDone(c) /\ "cwrite" \notin flt /\ ~CreadSeen /\ (k.id = "" \/ x.n = 0)
+     \* (a failing write side only matters to a request that is not on the wire yet)
+     /\ ~CtxDone(c) /\ ("cwrite" \notin flt \/ k.id # "") /\ ~CreadSeen /\ (k.id = "" \/ x.n = 0)
   \/ /\ p.op = "recv"
      /\ ~CtxDone(c) /\ ~CreadSeen /\ ~k.sendFailed
      /\ x.close = "" /\ ~x.fbad /\ k.recvd = Len(x.bodies) /\ k.term = ""
